@@ -887,9 +887,11 @@ func (b *BaseStore) recalculateReplicationProgress() {
 	}
 
 	b.ReplicationStatus().SetProgress(max)
+	b.verifStatus("progress", 0)
 }
 
 func (b *BaseStore) recalculateReplicationMax(max int) {
+	verifArg := max
 	if opLogLen := b.OpLog().Len(); opLogLen > max {
 		max = opLogLen
 	}
@@ -899,6 +901,7 @@ func (b *BaseStore) recalculateReplicationMax(max int) {
 	}
 
 	b.ReplicationStatus().SetMax(max)
+	b.verifStatus("max", verifArg)
 }
 
 func (b *BaseStore) recalculateReplicationStatus(maxTotal int) {
